@@ -154,7 +154,7 @@ func c19Protocol(c *core.Ctx) {
 		}
 		p, g := callsOfParam(body, cArm.Clause, fnParam)
 		sp, sg := callsOfParam(body, sArm.Clause, fnParam)
-		c.Check(R, ctor+"$fn/stop-arm-silent", sArm.Clause.Pos(), sp+sg == 0 && endsWithReturn(sArm.Clause.Body), "the stop arm returns without calling the callback")
+		c.Check(R, ctor+"$fn/stop-arm-silent", sArm.Clause.Pos(), sp+sg == 0 && armEndsGoroutine(body, sel, *sArm, inLoop), "the stop arm returns without calling the callback")
 		if ctor == setTimeoutKey {
 			c.Check(R, ctor+"$fn/fires-once", cArm.Clause.Pos(), p+g == 1 && !inLoop, keyf("callback invocations on the tick arm=%d, select in a loop=%v", p+g, inLoop))
 		} else {
@@ -271,7 +271,7 @@ func c19Protocol(c *core.Ctx) {
 		g := rf.Graph()
 		info := rf.Info()
 		stopFalse := func(u *core.Unit, br core.Branch) int {
-			ce, ok := ast.Unparen(br.Cond).(*ast.CallExpr)
+			ce, ok := ast.Unparen(u.Deep(br.Cond)).(*ast.CallExpr) // also through a local that received the result
 			if !ok {
 				return 0
 			}
@@ -345,6 +345,26 @@ func endsWithReturn(body []ast.Stmt) bool {
 	return ok
 }
 
+// armEndsGoroutine: the select arm ends the goroutine — with an explicit
+// return, or because the select is the last statement of the function body and
+// not inside a loop (falling out of it ends the function the same way).
+func armEndsGoroutine(u *core.Unit, sel *ast.SelectStmt, arm selectArm, inLoop bool) bool {
+	if endsWithReturn(arm.Clause.Body) {
+		return true
+	}
+	if inLoop || sel == nil {
+		return false
+	}
+	for _, st := range arm.Clause.Body {
+		switch st.(type) {
+		case *ast.BranchStmt, *ast.GoStmt:
+			return false
+		}
+	}
+	body := u.Body
+	return body != nil && len(body.List) > 0 && body.List[len(body.List)-1] == ast.Stmt(sel)
+}
+
 // C19.2 — a looping timer goroutine needs an unconditional stop signal.
 func c19LoopStop(c *core.Ctx) {
 	const R = "C19.2"
@@ -391,10 +411,10 @@ func c19LoopStop(c *core.Ctx) {
 		if body == nil {
 			continue
 		}
-		_, arms, inLoop := timerSelect(body)
+		sel, arms, inLoop := timerSelect(body)
 		hasExit := false
 		for _, a := range arms {
-			if a.Chan == "stop" && endsWithReturn(a.Clause.Body) {
+			if a.Chan == "stop" && armEndsGoroutine(body, sel, a, inLoop) {
 				hasExit = true
 			}
 		}
@@ -477,7 +497,14 @@ func c19Pairing(c *core.Ctx) {
 		holder := ""
 		var store *core.Call
 		for _, sc := range u.Calls() {
-			if sc.Name == "Store" && len(sc.Expr.Args) == 1 && ast.Unparen(sc.Expr.Args[0]) == cl.Expr {
+			if sc.Name != "Store" || len(sc.Expr.Args) != 1 {
+				continue
+			}
+			arg := ast.Unparen(sc.Expr.Args[0])
+			if d, ok := u.SingleDef(arg); ok && d != nil { // `t := SetTimeout(…); holder.Store(t)`
+				arg = ast.Unparen(d)
+			}
+			if arg == ast.Expr(cl.Expr) {
 				holder = timerHolder(info, sc.Recv)
 				store = sc
 			}
@@ -503,7 +530,7 @@ func c19Pairing(c *core.Ctx) {
 				switch u.Key {
 				case "engine.(*socket).schedulePing":
 					callers := callsAnywhere(c, "engine.(*socket).schedulePing")
-					once = len(callers) == 1 && callers[0].U.Key == "engine.(*socket).onOpen"
+					once = len(callers) == 1 && callerKey(c, callers[0]) == "engine.(*socket).onOpen"
 				case "engine.(*socket).MaybeUpgrade":
 					// a local holder of one MaybeUpgrade invocation, stored at top level (not in a closure/loop)
 					once = true
